@@ -95,7 +95,30 @@ def boundary_programs():
 
 TRAILERS = {"none": b"", "nul": b"\x00", "garbage": b"garbage.", "pickle": pickle.dumps("next", protocol=2),
             "opcode-prefix": b"\x80"}
-DELIVERIES = ("bytes", "bytearray", "BytesIO", "BytesIO@3", "file", "nonseekable", "buffered-nonseekable")
+DELIVERIES = ("bytes", "bytearray", "BytesIO", "BytesIO@3", "file", "file-r+b", "spooled", "custom-seekable", "nonseekable",
+              "buffered-nonseekable")
+
+
+class RawSeekable(io.RawIOBase):
+    """A user-defined seekable stream that is none of the io module's concrete classes."""
+
+    def __init__(self, data):
+        self._b = io.BytesIO(data)
+
+    def readable(self):
+        return True
+
+    def seekable(self):
+        return True
+
+    def readinto(self, b):
+        return self._b.readinto(b)
+
+    def seek(self, pos, whence=0):
+        return self._b.seek(pos, whence)
+
+    def tell(self):
+        return self._b.tell()
 
 
 def pickles(tier):
@@ -145,6 +168,19 @@ def _parse(item):
             with open(path, "wb") as fh:
                 fh.write(buf)
             src = stream = f = open(path, "rb")
+        elif delivery == "file-r+b":
+            path = os.path.join(wd, f"p-{os.getpid()}.bin")
+            with open(path, "wb") as fh:
+                fh.write(buf)
+            src = stream = f = open(path, "r+b")
+        elif delivery == "spooled":
+            import tempfile
+
+            src = stream = f = tempfile.SpooledTemporaryFile(max_size=1 << 20)
+            f.write(buf)
+            f.seek(0)
+        elif delivery == "custom-seekable":
+            src = stream = RawSeekable(buf)
         elif delivery == "nonseekable":
             src = stream = RawNonSeekable(buf)
         else:
@@ -185,7 +221,7 @@ def _parse(item):
                     out.violate(PROP, f"C06|buffer-modified|{delivery}", f"{tag}: the caller's buffer was modified", rp, len(data))
                 continue
             off = 3 if delivery == "BytesIO@3" else 0
-            if delivery in ("BytesIO", "BytesIO@3", "file"):
+            if delivery in ("BytesIO", "BytesIO@3", "file", "file-r+b", "spooled", "custom-seekable"):
                 pos = stream.tell()
                 if pos != off + n:
                     out.violate(PROP, f"C06|stream-position|{delivery}|{tname}",
